@@ -439,8 +439,16 @@ def undefined_raises(repo: Repo) -> RuleRun:
     guards = [n for n in guards if any(any(y is rz.stmt for y in ast.walk(n.stmt)) for rz in raises)]
     r.require(len(guards) >= 1, "guard 'if len(worklist) > 0: ... raise' not recognised")
     guard = guards[-1]
-    test = ast.unparse(guard.stmt.test).replace(" ", "")
-    wl_ok = test.startswith("len(") and (test.endswith(">0") or test.endswith("!=0") or test.endswith(">=1"))
+    # the guard is true exactly for a non-empty worklist: evaluated on an empty and a non-empty set
+    from ..peval import Evaluator as _Ev, NotEvaluable as _NE
+
+    names = sorted({x.id for x in ast.walk(guard.stmt.test) if isinstance(x, ast.Name) and x.id != "len"})
+    wl_ok = False
+    if len(names) == 1:
+        try:
+            wl_ok = (not _Ev(env={names[0]: set()}).truth(_Ev(env={names[0]: set()}).eval(guard.stmt.test), guard.stmt.test)) and bool(_Ev(env={names[0]: {3}}).truth(_Ev(env={names[0]: {3}}).eval(guard.stmt.test), guard.stmt.test))
+        except _NE:
+            wl_ok = False
     r.check(wl_ok, fn, f"guard '{ast.unparse(guard.stmt.test)}'", f"the guard before the raise is '{ast.unparse(guard.stmt.test)}', not a non-empty-worklist test", guard.stmt, key="guard")
     holds, path = g.must_pass(g.entry, g.exit_return, lambda n: n.id == guard.id)
     r.check(holds, fn, "every normal exit passes the guard", f"propagate_gradings can return without testing the worklist: {fmt_path(path)}", fn.node, key="exit-guarded")
